@@ -111,6 +111,10 @@ Step(e) ==
             \* C14: a forced run rewrites every expected file
             /\ Report((okRun /\ st.forced /\ expected # {}) => expected \subseteq st.wrote, "C14",
                       <<"forced run did not rewrite", expected \ st.wrote>>)
+            \* C14: on an unchanged, cleanly generated project a non-forced run leaves every file of the
+            \* output directory (bytes, mtime, inode) and the directory itself untouched
+            /\ Report((st.clean /\ ~st.forced) => Len(e.outChanged) = 0, "C14",
+                      <<"unchanged project, non-forced run, yet the output directory changed", e.outChanged>>)
             \* C16: nothing foreign changed
             /\ Report(Len(e.foreignChanged) = 0, "C16", <<"foreign paths changed", e.foreignChanged>>)
             \* C17: the cache never vouches for files that are not current (unless the environment lost them)
